@@ -330,6 +330,16 @@ class PySrv(object):
             if i == self.bot: return []       # without the capability the bot's own host change is not modelled
             u.ident = i2; u.host = h2; self.told.discard(i)      # nobody tells the bot
             return []
+        if k == 'say':
+            _, n, target, text = a
+            i = self.uid(n)
+            if i is None or not valid_text(text) or text == '': return []
+            sc = self.chan(target)
+            if low(target) == low(self.botnick()): to = self.botnick()
+            elif sc is not None and self.bot_in(sc): to = sc.name
+            else: return []
+            self.told.add(i)            # whoever the sender is, his prefix shows his hostmask
+            return [('M', self.users[i].mask(), 'PRIVMSG', [to, text])]
         if k == 'names':
             sc = self.chan(a[1])
             if sc is None or not self.bot_in(sc): return []
@@ -522,6 +532,7 @@ def act_line(a):
     if k == 'mode': return 'act\tmode\t%s\t%s\t%s' % (wire.enc(a[1]), wire.enc(a[2]), enc_changes(a[3]))
     if k == 'topic': return 'act\ttopic\t%s\t%s\t%s' % (wire.enc(a[1]), wire.enc(a[2]), wire.enc(a[3]))
     if k == 'chghost': return 'act\tchghost\t%s\t%s\t%s' % tuple(wire.enc(x) for x in a[1:])
+    if k == 'say': return 'act\tsay\t%s\t%s\t%s' % (wire.enc(a[1]), wire.enc(a[2]), wire.enc(a[3]))
     if k == 'names': return 'act\tnames\t%s' % wire.enc(a[1])
     if k == 'who': return 'act\twho\t%s' % wire.enc(a[1])
     if k == 'modeis': return 'act\tmodeis\t%s' % wire.enc(a[1])
@@ -683,8 +694,11 @@ def gen_action(r, S, findings=False):
         return ('mode', r.choice(['', '', _some_nick(r, S)]), c, [gen_change(r, S, c, findings) for _ in range(r.choice([1, 1, 2, 3, 4, 6]))])
     if x < 0.82:
         return ('topic', r.choice(['', _some_nick(r, S)]), _bot_chan(r, S), r.choice(TEXTS + ['bad\ntext']))
-    if x < 0.89:
+    if x < 0.885:
         return ('chghost', _some_nick(r, S, 0.25), r.choice(IDENTS + ['bad id']), r.choice(HOSTS + ['bad@host']))
+    if x < 0.9:
+        # a message to a channel of the bot or to the bot itself, also from users the bot cannot see
+        return ('say', _some_nick(r, S, 0.02), r.choice([_bot_chan(r, S), casevar(r, S.botnick())]), r.choice(TEXTS))
     if x < 0.915:
         return ('names', _bot_chan(r, S))
     if x < 0.94:
